@@ -7,7 +7,7 @@ use rusqlite::Connection;
 use std::path::{Path, PathBuf};
 use std::process::Command;
 use std::sync::{atomic::{AtomicBool, Ordering}, Arc};
-use std::time::Duration;
+use std::time::{Duration, Instant};
 
 fn cli() -> PathBuf {
     PathBuf::from(std::env::var("VERIF_CLI").unwrap_or("/verif/.cache/target-cli/debug/corrosion".into()))
@@ -261,4 +261,94 @@ pub fn backup(t: &mut Toks) -> String {
     });
     rt.shutdown_background();
     out
+}
+
+/// case: walread <n 1..4> <held mask> <wal 0|1>
+///   the destination is a live database (WAL or rollback journal) with two tables; n reader
+///   connections begin read transactions on n different snapshots (a commit between any two of
+///   them, so in WAL mode they sit on n different read marks); the readers in <held mask> are
+///   still inside their transaction -- having read table t1 -- when the real `corrosion restore`
+///   runs in another process; after the restore exited or 2.5 s passed they read table t2 in
+///   the same transaction and commit.
+/// obs: early=<restore exited while a reader was inside> rc=<exit code or -1> reader i: t1/t2
+///      generations (o = old, n = new, E = refused) ; final=<generations of t1+t2 afterwards>
+pub fn walread(t: &mut Toks) -> String {
+    use std::process::Stdio;
+    let n = t.usize();
+    let mask = t.u64();
+    let wal = t.u64() == 1;
+    let work = tempfile::TempDir::new().unwrap();
+    let dir = work.path();
+    let dst = dir.join("dst.db");
+    let bak = dir.join("backup.db");
+    let build = |p: &Path, tag: &str, wal: bool| {
+        let mut conn = Connection::open(p).unwrap();
+        conn.execute_batch("PRAGMA journal_mode = DELETE;
+             CREATE TABLE t1 (id INTEGER PRIMARY KEY, v TEXT NOT NULL);
+             CREATE TABLE t2 (id INTEGER PRIMARY KEY, v TEXT NOT NULL);
+             CREATE TABLE ticks (id INTEGER PRIMARY KEY, n INTEGER NOT NULL);
+             INSERT INTO ticks (id, n) VALUES (1, 0);").unwrap();
+        let txn = conn.transaction().unwrap();
+        for table in ["t1", "t2"] {
+            for id in 0..400 {
+                txn.execute(&format!("INSERT INTO {table} (id, v) VALUES (?, ?)"), rusqlite::params![id, format!("{tag}-{table}-{id:05}-{}", "x".repeat(100))]).unwrap();
+            }
+        }
+        txn.commit().unwrap();
+        if wal { conn.execute_batch("PRAGMA journal_mode = WAL; PRAGMA wal_checkpoint(TRUNCATE);").unwrap(); }
+    };
+    build(&dst, "old", wal);
+    build(&bak, "new", false);
+    let gens = |c: &Connection, table: &str| -> String {
+        match c.prepare(&format!("SELECT DISTINCT substr(v, 1, 1) FROM {table} ORDER BY 1")).and_then(|mut st| st.query_map([], |r| r.get::<_, String>(0)).and_then(|it| it.collect::<rusqlite::Result<Vec<String>>>())) {
+            Ok(v) => if v.is_empty() { "-".into() } else { v.join("") },
+            Err(_) => "E".into(),
+        }
+    };
+    let open = |p: &Path| { let c = Connection::open(p).unwrap(); c.execute_batch("PRAGMA wal_autocheckpoint = 0;").unwrap(); let _ = c.busy_timeout(Duration::from_millis(50)); c };
+    let writer = open(&dst);
+    let readers: Vec<Connection> = (0..n).map(|_| open(&dst)).collect();
+    let mut t1s = vec![String::new(); n];
+    for (i, r) in readers.iter().enumerate() {
+        if wal || i == 0 {
+            // (a rollback-journal writer cannot commit while a reader is inside: one snapshot only)
+            let _ = writer.execute("UPDATE ticks SET n = n + 1 WHERE id = 1", []);
+        }
+        r.execute_batch("BEGIN").unwrap();
+        let _: i64 = r.query_row("SELECT n FROM ticks WHERE id = 1", [], |row| row.get(0)).unwrap();
+        t1s[i] = gens(r, "t1");
+    }
+    for (i, r) in readers.iter().enumerate() {
+        if mask & (1 << i) == 0 { let _ = r.execute_batch("COMMIT"); }
+    }
+    let cfg = dir.join("config.toml");
+    std::fs::write(&cfg, format!("[db]\npath = \"{}\"\n\n[gossip]\naddr = \"127.0.0.1:0\"\n\n[api]\naddr = \"127.0.0.1:0\"\n\n[admin]\npath = \"{}\"\n",
+        dst.display(), dir.join("no-admin.sock").display())).unwrap();
+    let mut child = Command::new(cli()).args(["--config", &cfg.display().to_string(), "restore", &bak.display().to_string()])
+        .stdin(Stdio::null()).stdout(Stdio::null()).stderr(Stdio::null()).spawn().unwrap();
+    let wait = |child: &mut std::process::Child, max: Duration| -> Option<i32> {
+        let t0 = Instant::now();
+        loop {
+            if let Some(st) = child.try_wait().unwrap() { return Some(st.code().unwrap_or(-1)); }
+            if t0.elapsed() > max { return None; }
+            std::thread::sleep(Duration::from_millis(20));
+        }
+    };
+    let held_any = (0..n).any(|i| mask & (1 << i) != 0);
+    let early = wait(&mut child, Duration::from_millis(2500));
+    let mut outs = vec![];
+    let mut rd = vec![];
+    for (i, r) in readers.iter().enumerate() {
+        if mask & (1 << i) != 0 {
+            let t2 = gens(r, "t2");
+            let _ = r.execute_batch("COMMIT");
+            rd.push(format!("r{i}:{}/{}", t1s[i], t2));
+        }
+    }
+    let rc = match early { Some(rc) => rc, None => wait(&mut child, Duration::from_secs(90)).unwrap_or_else(|| { let _ = child.kill(); -9 }) };
+    drop(readers);
+    drop(writer);
+    let fin = Connection::open(&dst).map(|c| format!("{}{}", gens(&c, "t1"), gens(&c, "t2"))).unwrap_or("E".into());
+    outs.push(format!("early={} rc={} readers={} final={}", if early.is_some() && held_any { 1 } else { 0 }, rc, rd.join(","), fin));
+    outs.join(" # ")
 }
